@@ -1115,7 +1115,7 @@ func judge(e *ev.Env, c *ev.Case, p *pair) {
 	} else if val, k := p.get(p.cfg.proxyHeader); k == 1 && p.ipSent {
 		if !p.cfg.validate {
 			asserted = true
-			if A.IP != val {
+			if !sameClientIP(A.IP, val) {
 				e.Violation(c, "C10|trusted-forwarded-value|Ctx.IP|"+p.inputClass(p.cfg.proxyHeader, "validation-off|raw-header-value"), "trusted peer, validation off: IP() must be the ProxyHeader value", detail(map[string]any{"want": val}))
 			}
 		} else {
@@ -1152,7 +1152,7 @@ func judge(e *ev.Env, c *ev.Case, p *pair) {
 					if a, err := netip.ParseAddr(A.IP); err != nil || a.Unmap() != peerU {
 						e.Violation(c, "C10|trusted-forwarded-value|Ctx.IP|validation-on|no-valid-element", "no valid address in the ProxyHeader: IP() must be the peer", detail(nil))
 					}
-				} else if A.IP != want {
+				} else if !sameClientIP(A.IP, want) {
 					e.Violation(c, "C10|trusted-forwarded-value|Ctx.IP|"+p.inputClass(p.cfg.proxyHeader, "validation-on|first-valid="+cls), "trusted peer, validation on: IP() is not the first syntactically valid address of the ProxyHeader",
 						detail(map[string]any{"want": want}))
 				}
@@ -1163,6 +1163,22 @@ func judge(e *ev.Env, c *ev.Case, p *pair) {
 		e.Nontrivial("trusted", c.ID)
 		e.Stat("pairs_trusted_asserted", 1)
 	}
+}
+
+// sameClientIP compares the reported client IP with the expected forwarded value. The property
+// fixes which address is reported, not how it is spelled: when the expected value is an IP
+// address the two are compared as addresses (IPv4-mapped IPv6 unmapped); anything else (validation
+// off lets lists and garbage through) must come back exactly as sent.
+func sameClientIP(got, want string) bool {
+	if got == want {
+		return true
+	}
+	w, err := netip.ParseAddr(want)
+	if err != nil {
+		return false
+	}
+	g, err := netip.ParseAddr(got)
+	return err == nil && g.Unmap() == w.Unmap()
 }
 
 func canonName(p *pair, n string) string {
